@@ -67,6 +67,10 @@ func Run(r *core.Run) {
 			}
 		}
 	}
+	// also-known-as URIs that are valid but not spelled the way a URL library would print them: they are data and must come back as written
+	for _, u := range []string{`"HTTPS://Upper.example/Me"`, `"https://x.example/jos\u00e9"`, `"https://x.example/me#"`, `"http://x.example/%7Euser"`, `"did:Example:ABC"`, `"https://x.example/a b"`} {
+		docs = append(docs, `{"publicKey":[`+k[0]+`],"alsoKnownAs":[`+u+`,"https://plain.example/"]}`, `{"alsoKnownAs":[`+u+`]}`)
+	}
 	// documents without keys as well
 	docs = append(docs, `{"service":[`+s[0]+`]}`, `{"alsoKnownAs":[`+a[0]+`]}`, `{"scalar":"v"}`, `{}`)
 	r.Extra["documents"] = len(docs)
